@@ -22,7 +22,7 @@ import threading
 
 from harness.common import Failure, Spec, coq_list, coq_nat
 
-STEP_TIMEOUT = 10.0
+STEP_TIMEOUT = float(os.environ.get("C13_STEP_TIMEOUT", "5"))
 
 
 class _Stuck(Exception):
@@ -208,7 +208,7 @@ def _impl_sched(case) -> str:
                         if alldone() and not list.__len__(q):
                             quit_ = True
                             break
-                        if waited > 3.0:
+                        if waited > min(3.0, STEP_TIMEOUT):
                             errors.append("STALL")
                             quit_ = True
                             break
